@@ -686,7 +686,17 @@ void DiffVisitor::bvisit(const MExprPoly &self)
 
 void DiffVisitor::bvisit(const UExprPoly &self)
 {
-    result_ = diff_upoly<UExprPoly, map_int_Expr>(self, *x);
+    // the coefficients are expressions and may depend on x themselves
+    map_int_Expr d;
+    const bool same_var = self.get_var()->__eq__(*x);
+    for (auto it = self.begin(); it != self.end(); ++it) {
+        Expression dcoef(it->second.get_basic()->diff(x));
+        if (dcoef != Expression(0))
+            d[it->first] += dcoef;
+        if (same_var and it->first != 0)
+            d[it->first - 1] += it->second * it->first;
+    }
+    result_ = UExprPoly::from_dict(self.get_var(), std::move(d));
 }
 
 void DiffVisitor::bvisit(const FunctionWrapper &self)
